@@ -30,7 +30,8 @@ assert os.path.realpath(wt) != "/repo"
 path = os.path.join(wt, rel)
 src = open(path).read()
 tree = ast.parse(src)
-scratch = tempfile.mkdtemp(prefix="mutchk_")
+# scratch (evidence / replays of the mutant runs) next to the output file, not in /tmp's root where cleaners roam
+scratch = tempfile.mkdtemp(prefix="mutchk_", dir=os.path.dirname(os.path.abspath(arg("--out"))) if arg("--out") else None)
 HERE = os.path.dirname(os.path.dirname(os.path.abspath(__file__)))  # the clone this tool lives in (never a fixed /verif)
 
 CMP = {ast.Lt: ast.LtE, ast.LtE: ast.Lt, ast.Gt: ast.GtE, ast.GtE: ast.Gt, ast.Eq: ast.NotEq, ast.NotEq: ast.Eq,
@@ -123,6 +124,7 @@ def apply(kind, node, i):
 def run_check(prop):
     ev, rp = os.path.join(scratch, "evidence"), os.path.join(scratch, "replays")
     shutil.rmtree(rp, ignore_errors=True)
+    os.makedirs(scratch, exist_ok=True)
     env = dict(os.environ, PYRTMA_REPO=wt, VERIF_EVIDENCE_DIR=ev, VERIF_REPLAYS_DIR=rp, VERIF_NOCACHE="1")
     t0 = time.time()
     try:
@@ -132,6 +134,9 @@ def run_check(prop):
         rc, text = 2, "timeout"
     r = {"rc": rc, "s": round(time.time() - t0)}
     vl = [l for l in text.splitlines() if l.startswith("VIOLATION")]
+    if rc == 1 and not vl:
+        rc = 2      # exit 1 without a VIOLATION line is an uncaught exception of the framework, not a verdict
+    r["rc"] = rc
     if vl:
         r["nofail"] = vl[0].endswith("no-failing-input-found")
         try:
